@@ -667,6 +667,48 @@ def gen_c04(tier, seed, ctx=None):
                 stats["ops"] += 1
             start += total
     stats["exhaustive_panels"] = list(exhaustive)
+    # the 12.48in driver (own bus: every `write` and every `flush` is a fallible call): every public
+    # call after reset + init, the fault at every fallible call of short operations and at sampled
+    # ones of the frame writes; recovery = reset; init; both planes; refresh, against the twin
+    BIG = "panel=epd12in48b_v2 delay=none sched=1,0,1 raise=02,04,12 busylvl=0"
+    bcalls = ["init,0101", "mode,1031", "d1,r:1:326", "d2,r:2:163", "d1p,640,488,16,8,r:3:4", "d2p,0,0,64,2,r:4:16", "refresh", "brefresh",
+              "refreshp,640,480,16,24", "brefreshp,0,0,1304,984", "poweroff", "hibernate", "status", "lut,c,r:1:10", "lut,ww,z:0",
+              "lut,bd,r:6:43", "busy"]
+    brec = ["reset", "init,0000", "d1,r:7:163", "d2,r:8:163", "refresh"]
+    def bline(sid, ops, fault="-"):
+        return f"id={sid} {BIG} fault={fault} scribble=0 ops=" + ";".join(ops)
+    bpre = ctx.harness([bline(f"c04-big-{j}", ["reset", "init,0000", c]) for j, c in enumerate(bcalls)], "v3")
+    counts = {}
+    cur, opi, n = None, 0, 0
+    for l in bpre.splitlines():
+        if l.startswith("S "):
+            cur, opi, n = l[2:].strip(), 0, 0
+            counts[cur] = []
+        elif l.startswith("W "):
+            n += sum(int(x.split("*")[1]) for x in l.split(" ")[2].split(","))
+        elif l == "L":
+            n += 1
+        elif l.startswith("E "):
+            counts[cur].append(n)
+            n = 0
+    nbig = 0
+    for j, c in enumerate(bcalls):
+        sid = f"c04-big-{j}"
+        per = counts.get(sid, [])
+        if len(per) < 3:
+            continue
+        start = per[0] + per[1]
+        tot = per[2]
+        cand = list(range(start, start + tot))
+        lim = 12 if tier == "quick" else 80
+        if len(cand) > lim:
+            cand = sorted({cand[0], cand[1], cand[-1], cand[-2]} | set(rnd.sample(cand, lim - 4)))
+        opname = c.split(",")[0]
+        for kf in cand:
+            lines.append(bline(f"{sid}-{opname}@{kf}", ["reset", "init,0000", c] + brec, fault=kf))
+            nbig += 1
+        lines.append(bline(f"{sid}-twin@-", ["reset", "init,0000", c] + brec))
+    stats["big_panel_faults"] = nbig
     return {"v3": lines, "stats": stats}
 
 
